@@ -95,6 +95,7 @@ def strategy(tier):
         if sched == "list" and steps:
             sched = "quantile"                 # continue needs a tolerance below the previous final one: use the quantile form
         c["plots"] = draw(st.integers(0, 3)) == 0
+        c["own_tol"] = draw(st.booleans())
         return dict(c, priors=priors, constraint=constraint, N=draw(st.integers(20, 45)), G=G, sched=sched, q=draw(S.fl(0.3, 0.8, 2)),
                     tol_factor=draw(S.fl(0.5, 1.2, 2)), M=draw(st.sampled_from([None, None, "N-1", "half"])),
                     continues=steps, np_seed=draw(st.integers(0, 2 ** 32 - 1)))
@@ -234,10 +235,18 @@ def oracle(case, rec):
     for _ in range(case["continues"]):
         if case["sched"] in ("quantile", "quantile-inf"):
             nxt = dict(tol=float(abc.next_tol), G=G, q=case["q"])
+            if case.get("own_tol"):
+                # the caller continues with a tolerance of their own choosing (stricter than the suggested next_tol): the
+                # first continued generation must use exactly that one
+                nxt["tol"] = float(np.quantile(np.asarray(abc.dist, float), 0.6 * case["q"]))
+                rec.label("continue:own-tolerance")
         else:
             nxt = dict(tol=c_star + (float(abc.final_tol) - c_star) * 0.8, G=1)
         run(abc.continue_posterior_sample, **nxt)
         tol_history.append(list(np.asarray(abc.tolerances, float)))
+        if abs(tol_history[-1][0] - nxt["tol"]) > 1e-12 * (1 + abs(nxt["tol"])):
+            raise PropertyViolation(key + "/continue-tolerance", "continue_posterior_sample(tol=%r, ...) used %r for its first generation" % (
+                nxt["tol"], tol_history[-1][0]), case)
         acc += list(np.asarray(abc.acceptance_rate, float))
     if case.get("plots"):
         # looking at the posterior (both scalings of the scatter matrix) must not change it
